@@ -20,26 +20,26 @@ var moneyMethods = map[string]string{
 
 // moneyClass: caller function → class of its money sites (reviewed).
 var moneyClass = map[string][2]string{
-	"service.transferBalance":                       {"move", "operator transfer: credit target, debit source, same amount"},
-	"(*service.TxPool).ProcessFee":                  {"move", "per-transaction fee to FeeAccount"},
-	"core.deductGasFee":                             {"move", "gas fee of a failed contract tx, capped at the balance"},
-	"(*executor.contractExecutor).Execute":          {"move", "gas fee of a contract tx to FeeAccount"},
-	"vm.Transfer":                                   {"move", "EVM value transfer"},
-	"core.transfer":                                 {"move", "sub-chain reward value transfer"},
-	"(*service.MinerManager).AddStake":              {"lock", "stake locked: debit without credit, mirrored in miner.Stake (C20)"},
-	"(*service.MinerManager).AddMiner":              {"lock", "stake locked: debit without credit, mirrored in miner.Stake (C20)"},
-	"(*service.RefundManager).CheckAndMove":         {"scheduled-credit", "block reward / stake refund scheduled earlier"},
-	"(*executor.minerNodeExecutor).Execute":         {"burn", "10 RPG debited with no credit"},
-	"(*vm.EVM).StaticCall":                          {"touch", "AddBalance(addr, big0)"},
-	"vm.opSuicide":                                  {"selfdestruct", "credit beneficiary with the contract's balance, Suicide zeroes the contract"},
-	"core.genGenesisBlock":                          {"genesis", "initial allocation"},
-	"core.genDevGenesisBlock":                       {"genesis", "initial allocation"},
-	"core.genRobinGenesisBlock":                     {"genesis", "initial allocation"},
-	"core.genSubGenesisBlock":                       {"genesis", "initial allocation"},
-	"core.addDevTestAsset":                          {"genesis", "dev-net test allocation, called only from the dev genesis builder"},
-	"core.addRobinTestAsset":                        {"genesis", "robin test-net allocation, called only from the robin genesis builder"},
-	"eth_rpc.doCall":                                {"state-override", "eth_call simulation on a throw-away state (no Commit reachable)"},
-	"(*eth_rpc.StateOverride).Apply":                {"state-override", "eth_call simulation on a throw-away state (no Commit reachable)"},
+	"service.transferBalance":               {"move", "operator transfer: credit target, debit source, same amount"},
+	"(*service.TxPool).ProcessFee":          {"move", "per-transaction fee to FeeAccount"},
+	"core.deductGasFee":                     {"move", "gas fee of a failed contract tx, capped at the balance"},
+	"(*executor.contractExecutor).Execute":  {"move", "gas fee of a contract tx to FeeAccount"},
+	"vm.Transfer":                           {"move", "EVM value transfer"},
+	"core.transfer":                         {"move", "sub-chain reward value transfer"},
+	"(*service.MinerManager).AddStake":      {"lock", "stake locked: debit without credit, mirrored in miner.Stake (C20)"},
+	"(*service.MinerManager).AddMiner":      {"lock", "stake locked: debit without credit, mirrored in miner.Stake (C20)"},
+	"(*service.RefundManager).CheckAndMove": {"scheduled-credit", "block reward / stake refund scheduled earlier"},
+	"(*executor.minerNodeExecutor).Execute": {"burn", "10 RPG debited with no credit"},
+	"(*vm.EVM).StaticCall":                  {"touch", "AddBalance(addr, big0)"},
+	"vm.opSuicide":                          {"selfdestruct", "credit beneficiary with the contract's balance, Suicide zeroes the contract"},
+	"core.genGenesisBlock":                  {"genesis", "initial allocation"},
+	"core.genDevGenesisBlock":               {"genesis", "initial allocation"},
+	"core.genRobinGenesisBlock":             {"genesis", "initial allocation"},
+	"core.genSubGenesisBlock":               {"genesis", "initial allocation"},
+	"core.addDevTestAsset":                  {"genesis", "dev-net test allocation, called only from the dev genesis builder"},
+	"core.addRobinTestAsset":                {"genesis", "robin test-net allocation, called only from the robin genesis builder"},
+	"eth_rpc.doCall":                        {"state-override", "eth_call simulation on a throw-away state (no Commit reachable)"},
+	"(*eth_rpc.StateOverride).Apply":        {"state-override", "eth_call simulation on a throw-away state (no Commit reachable)"},
 }
 
 type moneySite struct {
